@@ -1,3 +1,4 @@
+\* MUST FAIL (InvC): self-check of the model checking, not run by bin/check
 \* one device type x 3 minors (totals 0 / 100), 2 pods, requests 50 / 100 percent of 1..2 devices; complete state space
 SPECIFICATION MSpec
 CONSTANTS
@@ -6,7 +7,7 @@ CONSTANTS
   Pods = {"p0", "p1"}
   MaxCnt = 2
   Amounts = {50, 100}
-  DupCheck = TRUE
+  DupCheck = FALSE
   KnownCheck = TRUE
   ResetFree = TRUE
   CmpOK = TRUE
